@@ -14,7 +14,10 @@ _m(
     "argument; after every request: unit modulus, P(z) == P(z), P(-z)P(z) == 1 and P(a)P(b) == P(a+b) between "
     "propagators obtained in DIFFERENT requests under the same current tilt/energy/sampling, and equality with a fresh "
     "instance constructed with the current parameters.  adjoint: object (S<=3, 2..14 per axis), patches (N<=4, 1..8 per axis) real or complex in 32/64 bit, index "
-    "sets random / four distinct values (heavy repeats) / distinct / wrapped windows, int32 or int64.  chain: public "
+    "sets random / four distinct values (heavy repeats) / distinct / wrapped windows, int32 or int64; plus a LARGE stratum "
+    "(10 cases per quick run, 30 per thorough worker): one sum_patches call with N x roi (roi 96..160 per axis) totalling "
+    "just below / 1-3 patterns above 2**20 or 2**21 patch pixels, never an exact multiple of 2**20, object 100..300 per "
+    "axis, window or random indices, all four dtypes.  chain: public "
     "constructors (Dataset4dstem -> PtychographyDatasetRaster.preprocess -> ProbePixelated.from_array, "
     "ObjectPixelated.from_array with random phases -> Ptychography.preprocess), roi 2..12, scan grid 2..4 per axis, "
     "S 1..4 with scalar or per-slice thicknesses 1-30 A, M 1..4, tilts, padding 0..5, pure_phase or potential object, "
@@ -22,7 +25,8 @@ _m(
     "float32 or float64 configuration, full or half batch; for S >= 2 optionally a tilt change through the public "
     "setter after the first pass, compute_propagator_arrays() and a second pass on the same instance (intensity sums "
     "again; instance propagators times the inverse propagators of a freshly built problem with the new tilt == 1).  proj: same construction, overlap (M<=4, N<=3, roi), measured "
-    "amplitudes exact zeros (0/20/80/100 %) or in [1e-3, 2]*scale.  A case is NON-TRIVIAL when: shift - some shift "
+    "amplitudes exact zeros (0/20/80/100 %) or in [max(1e-3*scale, 1e-7), 2*scale], overall amplitude scale of exit waves "
+    "and measured data drawn from 1e-6, 1e-5, 1e-4, 1e-3, 1e-2, 0.1, 1, 10, 1e3 (all tolerances relative to the scale).  A case is NON-TRIVIAL when: shift - some shift "
     "component is non-integer on an even-length axis; prop - a propagator carries more than 0.01 rad of phase; adjoint - "
     "the index set contains a repeated index; chain - S >= 2 or M >= 2; proj - the measured amplitudes contain an exact "
     "zero or M >= 2.  distinct = SHA-1 of the canonical JSON of the whole case.",
@@ -30,7 +34,7 @@ _m(
         "only the identities named in the property are asserted (energy, composition, integer shift == np.roll, unit "
         "modulus, P(-z)P(z) == 1, P(a)P(b) == P(a+b), adjointness, per-pattern intensity sum, projected magnitudes == "
         "measured, idempotence); the Fresnel formula itself and the geometry of dataset patch indices are not asserted",
-        "'scatter is the adjoint of gather' is judged element-wise against np.add.at (the transpose of the index-gather "
+        "'scatter is the adjoint of gather' is judged element-wise against a numpy bincount scatter (the transpose of the index-gather "
         "matrix) and as an inner-product identity with quantem's own gather, whose output must equal object[indices]",
         "Fourier magnitudes are laid out like DetectorPixelated.forward output (np.fft.fftshift of the corner-centred "
         "pattern), the layout of dset.targets that reconstruct() passes to gradient_step",
@@ -41,8 +45,10 @@ _m(
         "1e-5 relative for energy; forward chain 1e-10 (complex128, one slice), 1e-5 (complex128, multislice), 3e-5 "
         "(complex64) (clean tree 1e-15 / 1.5e-7 / 7e-7)",
         "mixed-state projection: estimate_amplitudes adds a documented 1e-9 regulariser to every Fourier coefficient, so "
-        "magnitudes match to m*sqrt(M)*1e-9/sqrt(S) (triangle inequality); the tolerance is 4x that bound plus rounding; "
-        "non-zero measured amplitudes are >= 1e-3 of the scale and overlaps are random (no exactly vanishing Fourier "
+        "magnitudes match to m*sqrt(M)*1e-9/(sqrt(S)-sqrt(M)*1e-9) (triangle inequality) and a second projection moves a "
+        "coefficient by at most (|m-T|+sqrt(M)*1e-9)*T/(T-sqrt(M)*1e-9), T the magnitude after the first projection; the "
+        "tolerances are 4x these rigorous bounds plus rounding (1e-10 / 1e-4 of the scale), so they stay valid at every "
+        "amplitude scale; non-zero measured amplitudes are >= max(1e-3*scale, 1e-7) and overlaps are random (no exactly vanishing Fourier "
         "coefficient in all modes, where no rescaling can produce the measured amplitude)",
         "history independence (a propagator obtained after any sequence of requests and setter calls equals the one a "
         "fresh instance with the same current tilt/energy/sampling/thickness returns) is read out of 'for all inputs': the "
